@@ -47,6 +47,7 @@ func (c *Canon) localName(a *ssa.Alloc) string {
 		c.locals = map[*ssa.Alloc]string{}
 		count := map[string]int{}
 		fn := a.Parent()
+		var allocs []*ssa.Alloc
 		for _, b := range fn.Blocks {
 			for _, in := range b.Instrs {
 				if al, ok := in.(*ssa.Alloc); ok {
@@ -54,11 +55,17 @@ func (c *Canon) localName(a *ssa.Alloc) string {
 					case "complit", "varargs", "new", "makeslice", "slicelit", "":
 						continue
 					}
-					t := short(al.Type().(*types.Pointer).Elem().String())
-					count[t]++
-					c.locals[al] = fmt.Sprintf("«%s#%d»", t, count[t])
+					allocs = append(allocs, al)
 				}
 			}
+		}
+		// ordinal in declaration order (source position), which does not depend on how the
+		// surrounding control flow happens to be numbered
+		sort.SliceStable(allocs, func(i, j int) bool { return allocs[i].Pos() < allocs[j].Pos() })
+		for _, al := range allocs {
+			t := short(al.Type().(*types.Pointer).Elem().String())
+			count[t]++
+			c.locals[al] = fmt.Sprintf("«%s#%d»", t, count[t])
 		}
 	}
 	if n, ok := c.locals[a]; ok {
